@@ -273,7 +273,8 @@ type stats map[string]int64
 // runner drives one scheduler instance and the model in lock step.
 type runner struct {
 	m      *model
-	v      *txpool.VerifScheduler
+	v      sched
+	mq     bool // driven through the mutex-guarded mainQueue wrapper instead of the bare scheduler
 	txs    map[int]*txRec
 	byHash map[hash.Hash]*txRec
 	st     stats
@@ -293,9 +294,59 @@ type runner struct {
 	sawChoice    bool
 }
 
+// sched is what the runner needs from the implementation under test. The bare
+// scheduler (hook H4 VerifScheduler) provides it directly; mqAdapter provides it
+// through the production wrapper mainQueue (hook H4 VerifMainQueue).
+type sched interface {
+	Add(tx *txpool.TxQueueMeta, sender string, seq, priority, stateSeq uint64) error
+	Forward(sender string, seq uint64)
+	Reset()
+	Schedule(limit int) []*txpool.TxQueueMeta
+	HandleTxUsed(h hash.Hash)
+	All() []*txpool.TxQueueMeta
+	Drain() []*txpool.TxQueueMeta
+	Size() int
+	Has(h hash.Hash) bool
+}
+
+// mqAdapter maps the runner's calls onto mainQueue's public methods: Add
+// performs the forward itself, Schedule = reset + schedule, ScheduleExtra =
+// schedule. The runner issues Reset() only directly before Schedule() in this
+// mode (raw reset / forward operations are rewritten by toMQ).
+type mqAdapter struct {
+	q            *txpool.VerifMainQueue
+	pendingReset bool
+}
+
+func (a *mqAdapter) Add(tx *txpool.TxQueueMeta, sender string, seq, priority, stateSeq uint64) error {
+	return a.q.Add(tx, sender, seq, priority, stateSeq)
+}
+func (a *mqAdapter) Forward(string, uint64) {}
+func (a *mqAdapter) Reset()                 { a.pendingReset = true }
+func (a *mqAdapter) Schedule(limit int) []*txpool.TxQueueMeta {
+	if a.pendingReset {
+		a.pendingReset = false
+		return a.q.Schedule(limit)
+	}
+	return a.q.ScheduleExtra(limit)
+}
+func (a *mqAdapter) HandleTxUsed(h hash.Hash)       { a.q.HandleTxsUsed([]hash.Hash{h}) }
+func (a *mqAdapter) All() []*txpool.TxQueueMeta   { return a.q.All() }
+func (a *mqAdapter) Drain() []*txpool.TxQueueMeta { return a.q.Drain() }
+func (a *mqAdapter) Size() int                    { return a.q.Size() }
+func (a *mqAdapter) Has(h hash.Hash) bool         { _, ok := a.q.Get(h); return ok }
+
 func newRunner(capacity int, salt string, st stats) *runner {
 	return &runner{
 		m: newModel(capacity), v: txpool.VerifNewScheduler(capacity),
+		txs: map[int]*txRec{}, byHash: map[hash.Hash]*txRec{}, st: st, salt: salt,
+	}
+}
+
+// newRunnerMQ drives the production wrapper mainQueue.
+func newRunnerMQ(capacity int, salt string, st stats) *runner {
+	return &runner{
+		m: newModel(capacity), v: &mqAdapter{q: txpool.VerifNewMainQueue(capacity)}, mq: true,
 		txs: map[int]*txRec{}, byHash: map[hash.Hash]*txRec{}, st: st, salt: salt,
 	}
 }
